@@ -600,3 +600,109 @@ Proof.
   - split; [|cbn; auto]. apply okc_with_sb; auto; [lia|apply (gk_sbcap _ K)].
   - split; cbn; auto.
 Qed.
+
+(* ---- construction, clearing, resizing ---- *)
+Lemma allocate_rows_ok x : grid_okc (with_live x (repeatN (row_new (gcols x)) (grows x))) -> True.
+Proof. auto. Qed.
+
+(* a grid as created by Grid::new, before its rows are allocated *)
+Record grid_shape (x : grid) : Prop := mkShape {
+  sh_rows : 1 <= grows x /\ grows x <= MAXDIM;
+  sh_cols : 1 <= gcols x /\ gcols x <= MAXDIM;
+  sh_prow : prow x < grows x; sh_pcol : pcol x <= gcols x;
+  sh_sprow : sprow x < grows x; sh_spcol : spcol x <= gcols x;
+  sh_bot : bot x < grows x;
+  sh_region : top x < bot x \/ (top x = 0 /\ bot x = grows x - 1);
+  sh_sboff : sb_off x <= len (sb x);
+  sh_sbcap : len (sb x) <= sb_cap x }.
+
+(* allocated or not: what every grid of a screen satisfies *)
+Definition grid_ok0 (x : grid) : Prop := grid_shape x /\ (live x = [] \/ grid_ok x).
+
+Lemma grid_ok_shape x : grid_ok x -> grid_shape x.
+Proof. intros ([] & ? & ?). split; auto. Qed.
+
+Lemma grid_ok_ok0 x : grid_ok x -> grid_ok0 x.
+Proof. intros H. split; [now apply grid_ok_shape|now right]. Qed.
+
+Lemma shape_alloc_ok x : grid_shape x -> len (live x) = grows x -> Forall (row_ok (gcols x)) (live x) -> grid_ok x.
+Proof. intros [] Hl Hf. split; [split; auto|auto]. Qed.
+
+Lemma allocate_rows_post x : grid_ok0 x -> grid_ok (allocate_rows x) /\ frame x (allocate_rows x).
+Proof.
+  intros [Sh [Hl|Hok]]; unfold allocate_rows.
+  - rewrite Hl. split; [|apply frame_live].
+    apply shape_alloc_ok; cbn.
+    + destruct Sh. split; auto.
+    + apply len_repeatN.
+    + apply Forall_repeatN, row_new_ok.
+  - destruct (live x) eqn:E; [|split; [exact Hok|apply frame_refl]].
+    destruct Hok as (K & _). pose proof (gk_live _ K) as L. pose proof (gk_rows _ K). rewrite E in L. cbn in L. lia.
+Qed.
+
+Lemma grid_new_ok0 rows cols cap : 1 <= rows <= MAXDIM -> 1 <= cols <= MAXDIM ->
+  exists x, grid_new rows cols cap = Ok x /\ grid_ok0 x /\ grows x = rows /\ gcols x = cols /\ sb_cap x = cap /\ sb x = [] /\ live x = [].
+Proof.
+  intros Hr Hc. unfold grid_new. rewrite sub16_ok by lia. cbn [bind].
+  eexists; split; [reflexivity|]. cbn. repeat split; cbn; auto; try lia.
+Qed.
+
+Lemma grid_clear_post x : grid_ok0 x ->
+  exists y, grid_clear x = Ok y /\ grid_ok0 y /\ frame x y /\ sb y = sb x /\ (grid_ok x -> grid_ok y).
+Proof.
+  intros [Sh Hl]. unfold grid_clear. pose proof (sh_rows _ Sh). rewrite sub16_ok by lia. cbn [bind].
+  eexists; split; [reflexivity|].
+  assert (grid_shape (mkGrid (grows x) (gcols x) 0 0 0 0 (map (row_clear dflt) (live x)) 0 (grows x - 1) false false
+                             (sb x) (sb_cap x) (sb_off x))) as Sh'.
+  { destruct Sh. split; cbn; auto; lia. }
+  assert (grid_ok x -> grid_ok (mkGrid (grows x) (gcols x) 0 0 0 0 (map (row_clear dflt) (live x)) 0 (grows x - 1) false false
+                             (sb x) (sb_cap x) (sb_off x))) as Hok'.
+  { intros (K & _).
+    apply shape_alloc_ok; [exact Sh'| |]; cbn.
+    - rewrite len_map. apply (gk_live _ K).
+    - apply Forall_map'. intros rw Hin. apply row_clear_ok.
+      pose proof (gk_rowsok _ K) as F. rewrite Forall_forall in F. apply (F rw Hin). }
+  split; [|split; [split; reflexivity|split; [reflexivity|exact Hok']]].
+  split; [exact Sh'|].
+  destruct Hl as [Hl|Hok]; [left; cbn; now rewrite Hl|right; auto].
+Qed.
+
+(* Grid::set_size *)
+Lemma grid_set_size_post x rows cols : grid_ok0 x -> 1 <= rows <= MAXDIM -> 1 <= cols <= MAXDIM ->
+  exists y, grid_set_size x rows cols = Ok y /\ grid_ok y /\ grows y = rows /\ gcols y = cols /\
+            sb_cap y = sb_cap x /\ sb y = sb x.
+Proof.
+  intros [Sh Hl] Hr Hc. unfold grid_set_size.
+  pose proof (sh_rows _ Sh). rewrite !sub16_ok by lia. cbn [bind].
+  set (l1 := if negb (cols =? gcols x) then map (row_wrap false) (live x) else live x).
+  set (l3 := resize_list (map (fun r => row_resize r cols cell_new) l1) rows (row_new cols)).
+  set (b1 := if bot x =? grows x - 1 then rows - 1 else bot x).
+  set (b2 := if rows <=? b1 then rows - 1 else b1).
+  set (t2 := if b2 <=? top x then 0 else top x).
+  set (g1 := mkGrid rows cols (prow x) (pcol x) (sprow x) (spcol x) l3 t2 b2 (origin x) (sorigin x) (sb x) (sb_cap x) (sb_off x)).
+  rewrite row_clamp_top_eq. rewrite row_clamp_bottom_eq by (cbn; lia). cbn [bind].
+  rewrite col_clamp_eq by (cbn; lia). cbn [bind].
+  eexists; split; [reflexivity|].
+  assert (Forall (fun r => cells_ok (cells r)) l1) as F1.
+  { unfold l1. destruct Hl as [Hl|(K & _)].
+    - rewrite Hl. destruct (negb (cols =? gcols x)); constructor.
+    - pose proof (gk_rowsok _ K) as F.
+      destruct (negb (cols =? gcols x)).
+      + apply Forall_map'. intros rw Hin. rewrite Forall_forall in F. apply (F rw Hin).
+      + eapply Forall_impl; [|exact F]. intros rw [_ Hk]. exact Hk. }
+  assert (Forall (row_ok cols) l3) as F3.
+  { unfold l3. apply Forall_resize_list; [|apply row_new_ok].
+    apply Forall_map'. intros rw Hin. apply row_resize_ok; [|lia].
+    rewrite Forall_forall in F1. apply (F1 rw Hin). }
+  assert (len l3 = rows) as L3 by (unfold l3; apply len_resize_list).
+  assert (b2 < rows) as Hb2 by (unfold b2, b1; destruct (N.leb_spec rows (if bot x =? grows x - 1 then rows - 1 else bot x)); lia).
+  assert (t2 < b2 \/ (t2 = 0 /\ b2 = rows - 1)) as Hreg.
+  { pose proof (sh_region _ Sh) as R. pose proof (sh_bot _ Sh) as B. unfold t2.
+    destruct (N.leb_spec b2 (top x)) as [Hle|Hgt]; [right|left; lia].
+    split; [reflexivity|]. unfold b2, b1 in *.
+    destruct (N.eqb_spec (bot x) (grows x - 1)); destruct (N.leb_spec rows (rows - 1)); try lia;
+      destruct (N.leb_spec rows (bot x)); lia. }
+  split; [|cbn; auto].
+  split; [|cbn; lia].
+  destruct Sh. split; cbn; auto; try lia.
+Qed.
